@@ -315,7 +315,7 @@ func judge(k kase, out []byte) (string, string) {
 	return "", ""
 }
 
-var regexpAll = mustRe(".*")
+var regexpAll = mustRe(".+") // every media type, but not the empty string: the payload of data:text/plain must be dispatched under its type
 
 func main() {
 	seed := flag.Uint64("seed", 1, "")
